@@ -92,7 +92,7 @@ def parse_cases_out(text):
             cls = f.get("class")
             m = re.search(r" impl=(.*?) model=(.*)$", line)
             impl, model = (m.group(1), m.group(2)) if m else ("", "")
-            if cls in ("KBD", "DEVS", "KBD_OUTSIDE_DOMAIN", "DEVS_OUTSIDE_DOMAIN"):
+            if cls in ("KBD", "DEVS", "KBD_OUTSIDE_DOMAIN", "DEVS_OUTSIDE_DOMAIN", "DEVS_NONKEYBOARD"):
                 ar = 2 if cls.startswith("KBD") else 3
                 diffs.append({"engine": ENGINE, "class": cls,
                               "input": {"family": f.get("family"), "text": unhex(f.get("text", "")), "text_hex": f.get("text", "")},
